@@ -1515,10 +1515,23 @@ Proof. induction l as [|x l IH]; intros h Hh Hf; cbn; [exact Hh|]. apply IH; aut
 Lemma wf_leave_call xr xp h sid : WFg xr xp h -> WFg xr xp (fst (leave_call h sid)).
 Proof. intros W. eapply wf_equiv; [apply equiv_leave_call|exact W]. Qed.
 
+(* the room's transient data: the member lists do not change, every listener is sent a notice *)
+Lemma wf_transient_update h k r del key val : WF h -> room_of h k = Some r -> WF (fst (transient_update h k r del key val)).
+Proof.
+  unfold WF. intros W Hr. unfold transient_update.
+  assert (Hn : forall d m, WFg none2 none1 (fst (transient_notify h k r d m))).
+  { intros d m. unfold transient_notify. apply wf_fold_sessions.
+    - unfold room_set_transient. apply (wf_room_update _ _ h k r); auto. cbn [r_incall]. intros x. apply (wf_incall _ _ h W k r x Hr).
+    - intros. now apply wf_send_session. }
+  destruct (del || N.eqb val 0).
+  - destruct (aget (r_transient r) key); [apply Hn|exact W].
+  - destruct (aget (r_transient r) key) as [v|]; [destruct (N.eqb v val); [exact W|apply Hn]|apply Hn].
+Qed.
+
 Lemma wf_room_request h k q : WF h -> WF (fst (room_request h k q)).
 Proof.
   unfold WF. intros W. unfold room_request. destruct (room_of h k) as [r|] eqn:Hr; [|exact W].
-  destruct q as [|users rs|tag|l|l|ic|tag|ok]; [| | | | | | |exact W].
+  destruct q as [|users rs|tag|l|l|ic|tag|ok|del key val]; [| | | | | | |exact W|now apply wf_transient_update].
   - (* delete *)
     match goal with |- context [fold_sessions h ?int ?f] => set (internals := int); set (g := f) end.
     destruct (fold_sessions h internals g) as [h0 o0] eqn:H0. pose proof (fst_eq _ _ _ H0) as E0.
@@ -1618,7 +1631,7 @@ Proof.
   unfold WF. intros W. unfold do_api.
   assert (Hpub : forall hh s m, WFg none2 none1 hh -> WFg none2 none1 (publish hh s m)).
   { intros. eapply wf_equiv; [apply equiv_publish|assumption]. }
-  destruct q as [|users rs|tag|l|l|ic|tag|ok]; cbn [fst]; auto.
+  destruct q as [|users rs|tag|l|l|ic|tag|ok|del key val]; cbn [fst]; auto.
   - match goal with |- WFg _ _ (fold_left ?f ?l ?h0) => apply (wf_fold_left_hub (WFg none2 none1) f l h0) end.
     + match goal with |- WFg _ _ (fold_left ?f ?l ?h0) => apply (wf_fold_left_hub (WFg none2 none1) f l h0) end; auto.
     + intros hh x Hhh. destruct (aget (h_rs2 hh) (1000000 + x)); auto.
@@ -1877,14 +1890,9 @@ Proof.
   - eapply wf_equiv; [apply equiv_do_mcudone|exact W].
   - (* transient data *)
     apply Hws. intros cn sid s Hc Hs. destruct (s_room s) as [k|]; [|exact W].
+    destruct (2 <=? kindn); [exact W|].
     destruct (negb (allowed_transient s)); [exact W|]. destruct (room_of h k) as [r|] eqn:Hr; [|exact W].
-    assert (Hupd : forall tr, WFg none2 none1 (set_rooms h (pset (h_rooms h) k (mkroom (r_members r) (r_incall r) (r_sessdata r) tr (r_props r))))).
-    { intros tr. apply (wf_room_update _ _ h k r); auto. cbn [r_incall]. intros m. apply (wf_incall _ _ h W k r m Hr). }
-    destruct (N.eqb kindn 0).
-    + destruct (aget (r_transient r) key) as [v|].
-      * destruct (N.eqb v val); [exact W|]. apply wf_fold_sessions; [apply Hupd|]. intros. now apply wf_send_session.
-      * apply wf_fold_sessions; [apply Hupd|]. intros. now apply wf_send_session.
-    + destruct (aget (r_transient r) key); [|exact W]. apply wf_fold_sessions; [apply Hupd|]. intros. now apply wf_send_session.
+    now apply wf_transient_update.
   - now apply wf_deliver_at.
 Qed.
 
